@@ -1,0 +1,67 @@
+//go:build verif
+
+package tsi
+
+// Contracts for /verif (gvc). Comment-only file; see /verif/DESIGN.md §5 C10, C13.
+
+//@ prop C10 C13
+
+// A series id handed out for a key is never one that DROP SERIES has hidden: both the cache path and the
+// index path test the id they are about to return against the deleted set.
+//@ func (*MergeSetIndex).getSeriesIdBySeriesKey
+//@   ghost delNil bool = false
+//@   ghost clean bool = false
+//@   ghost checked uint64 = 0
+//@   call (*MergeSetIndex).GetDeletedTSIDs
+//@     set delNil = (ret0 == nil)
+//@     set clean = false
+//@   call .Has
+//@     set clean = !ret0
+//@     set checked = arg0
+//@   ensures result1 == nil && result0 != 0 ==> (delNil || (clean && checked == result0))
+
+// One id per series: an id is created only after the lookup of the same key answered "none"
+// (and without error); a found id is returned unchanged.
+//@ func (*MergeSetIndex).createIndexesIfNotExists
+//@   ghost looked bool = false
+//@   ghost lid uint64 = 0
+//@   ghost lerr Iface = nil
+//@   call (*MergeSetIndex).getSeriesIdBySeriesKey
+//@     requires arg0 == vkey
+//@     set looked = true
+//@     set lid = ret0
+//@     set lerr = ret1
+//@   call (*MergeSetIndex).createIndexes
+//@     requires looked && lerr == nil && lid == 0 && arg0 == vkey
+//@   ensures looked && lerr == nil && lid != 0 ==> result0 == lid && result1 == nil
+//@   ensures looked && lerr != nil ==> result0 == 0 && result1 != nil
+
+//@ prop C10
+
+// Two index rows are folded together only if date, namespace prefix, measurement name and tag are all equal.
+//@ func (*tagToTSIDsRowParser).EqualPrefix
+//@   requires mp != nil
+//@   ensures result ==> tagis(x, "*tagToTSIDsRowParser")
+//@   ensures result ==> mp.Date == as(x, "*tagToTSIDsRowParser").Date && mp.NsPrefix == as(x, "*tagToTSIDsRowParser").NsPrefix
+//@   ensures result ==> str(mp.Name) == str(as(x, "*tagToTSIDsRowParser").Name)
+
+// A filter slot is pooled and re-used: Init resets every per-use flag (in particular "matches everything").
+//@ func (*tagFilter).Init
+//@   requires tf != nil
+//@   ghost rAll bool = false
+//@   ghost rEmpty bool = false
+//@   ghost rNeg bool = false
+//@   ghost rRe bool = false
+//@   store tagFilter.isAllMatch
+//@     set rAll = !val
+//@   store tagFilter.isEmptyMatch
+//@     set rEmpty = true
+//@   store tagFilter.isNegative
+//@     set rNeg = (val == isNegative)
+//@   store tagFilter.isRegexp
+//@     set rRe = (val == isRegexp)
+//@   ensures rAll && rEmpty && rNeg && rRe
+
+//@ func (*MergeSetIndex).GetDeletedTSIDs
+//@   trusted atomic load of the current deleted set
+//@   assigns nothing
